@@ -70,8 +70,10 @@ def judge(S0, S1, bundle, reply, meta_types=None, stats=None):
   # Default / trigger formulas of records added or updated anywhere in the bundle are evaluated when the
   # bundle ends, i.e. after the removal, whatever the position of the action that touched the record.
   after = columns_written(followers, rc) | columns_written(bundle, rc, named=False)
+  added_to = set(a[1] for a in bundle if is_record_writer(a) and a[0] in ('AddRecord', 'BulkAddRecord'))
   msgs, n = invariants.c10(S0, S1, written_after=after, written_any=columns_written(bundle, rc),
-                           judge_rest=not any(unknown(a) for a in bundle), meta_types=meta_types, stats=stats)
+                           judge_rest=not any(unknown(a) for a in bundle), meta_types=meta_types, stats=stats,
+                           reused_targets=added_to)
   return msgs, n, None
 
 
